@@ -231,6 +231,10 @@ def run_level(ctx, lvl, ncurves, have_driver):
             bar = ws.index("|")
             r = [sint(x) % N for x in ws[:4]]
             P1, Q1, D1 = pt(ws[bar + 1:bar + 3]), pt(ws[bar + 3:bar + 5]), pt(ws[bar + 5:bar + 7])
+            states = []
+            for seg in res.split(" | ")[2:]:
+                sw = seg.split()
+                states.append((sw[0], sw[1] == "1", [sint(x) % N for x in sw[2:6]]))
             cls = classify_cob(M, e, fmax)
             hist[meta["tag"]] = hist.get(meta["tag"], 0) + 1
             ctx.case("L%d:%s:e=%d:cob:%s:%x" % (lvl, curop[:24], e, meta["tag"], M[0]))
@@ -247,6 +251,18 @@ def run_level(ctx, lvl, ncurves, have_driver):
                 else:
                     ctx.violation("c11:L%d:matrix_application-wrong-point:%s" % (lvl, meta["tag"]), "matrix_application_even_basis does not return (aP+cQ, bP+dQ, difference)",
                                   rep(dict(matrix=["%x" % x for x in M])))
+            if app_ok and cob_ok and not [k for k in cls if k != K_APP_ZERO]:
+                # cache-state independence: same round trip with the curve struct in the other A24-cache states
+                for (st, sameapp, rs) in states:
+                    ctx.case("L%d:cache-state:%s" % (lvl, st))
+                    if not sameapp or not (rs == M or rs == [(-x) % N for x in M]):
+                        ctx.violation("c11:L%d:result-depends-on-A24-cache-state:%s" % (lvl, st),
+                                      "matrix_application / change_of_basis_matrix_two give a different (wrong) result when the caller's ec_curve_t has another state of its cached A24 "
+                                      "(s1 fresh init + A,C; s2 rescaled (A:C); s3 flag clear with stale A24; s4 the constant CURVE_E0)",
+                                      rep(dict(matrix=["%x" % x for x in M], state=st, got=["%x" % x for x in rs], same_points=sameapp)))
+                        break
+            if not app_ok:
+                pass
             elif not cob_ok:
                 rest = [k for k in cls if k != K_APP_ZERO]
                 if rest:
